@@ -31,6 +31,8 @@ CODES = {
     8: ("oracle", "the wrapper did not call the rule with the budgets B, B+s, B+2s, ... in turn"),
     9: ("model", "harness table incomplete: the model asked for a base-rule outcome the harness did not tabulate"),
     10: ("model", "the Gallina wrapper model ran out of fuel"),
+    11: ("oracle", "completion returned an allocation over the budget limit because a wrapped rule, started from a "
+                   "feasible allocation, returned one (Equal Shares ignores the cost of its initial allocation)"),
     core.RAISED: ("oracle", "the wrapper raised / the interpreter died"),
 }
 RULE = ("approval elections with 1..5 voters (Profile and MultiProfile), 1..6 projects, costs from tie-rich pools "
@@ -70,16 +72,18 @@ CCAP = 160         # maximal number of tabulated rule calls of a completion
 
 
 def budget(tier):
-    return 520 if tier == "quick" else 8000
+    return 800 if tier == "quick" else 10000
 
 
 # ------------------------------------------------------------------------------------------------
 def gen(rng, i, tier):
     kind = ["increase", "increase", "mesiter", "completion"][i % 4]
-    resolute = rng.random() < 0.6
+    resolute = rng.random() < (0.6 if kind != "completion" else 0.4)
     m = rng.choice([1, 2, 3, 3, 4, 4, 5, 5, 6]) if resolute else rng.choice([1, 2, 3, 3, 4, 4, 5])
     n = rng.choice([1, 2, 2, 3, 3, 4, 5])
     pool = rng.choice(POOLS)
+    if kind == "completion" and not resolute and rng.random() < 0.5:
+        pool = rng.choice([[2, 2, 2, 1], [3, 3, 2, 2], [1, 1, 1], ["3/2", "3/2", 1, 1]])   # ties
     costs = [pb.F(rng.choice(pool)) for _ in range(m)]
     tot = sum(costs, Fraction(0))
     mode = rng.randrange(5)
@@ -97,6 +101,8 @@ def gen(rng, i, tier):
         B = Fraction(rng.choice([1, 2]))
     ballots = []
     style = rng.randrange(4)
+    if kind == "completion" and not resolute and rng.random() < 0.5:
+        style = 0
     for _ in range(n):
         if style == 0 and ballots and rng.random() < 0.5:
             ballots.append(list(rng.choice(ballots)))          # duplicates (multiplicities >= 2)
@@ -114,15 +120,41 @@ def gen(rng, i, tier):
             if c + costs[p] <= B:
                 init.append(p)
                 c += costs[p]
+    if kind == "completion" and not resolute and rng.random() < 0.5:
+        # twins: several equally good projects of which only one fits -> several partial outcomes of the first
+        # rule, each of which has to be completed separately
+        c = Fraction(rng.choice([2, 3, 3, "5/2"]))
+        k = rng.choice([2, 2, 3])
+        fill = [Fraction(rng.choice([1, 1, 2, "1/2"])) for _ in range(rng.choice([1, 2, 2]))]
+        costs = [c] * k + fill
+        pos = list(range(len(costs)))
+        rng.shuffle(pos)
+        costs = [costs[j] for j in pos]
+        twins = [j for j in range(len(costs)) if pos[j] < k]
+        fillers = [j for j in range(len(costs)) if pos[j] >= k]
+        m = len(costs)
+        tot = sum(costs, Fraction(0))
+        B = c + rng.choice([min(fill), max(fill), sum(fill), Fraction(1, 2)])
+        n = rng.choice([2, 2, 3])
+        ballots = []
+        for v in range(n):
+            b = list(twins) if rng.random() < 0.85 else rng.sample(twins, 1)
+            for f in fillers:
+                if rng.random() < 0.3:
+                    b.append(f)
+            ballots.append(sorted(b))
+        init = []
     case = {"kind": kind, "costs": [pb.qs(c) for c in costs], "budget": pb.qs(B), "ballots": ballots,
             "multi": rng.random() < 0.4, "init": sorted(init), "resolute": resolute}
     sat = rng.choice(["cost", "card"])
     if kind == "increase":
-        case["rule"] = rng.choice(["mes", "mes", "phragmen", "greedy"])
+        case["rule"] = rng.choice(["mes", "mes", "mes", "phragmen", "greedy"])
         case["sat"] = sat
-        case["stop"] = rng.random() < 0.7
-        s = rng.choice([Fraction(1), Fraction(1), Fraction(1, 2), Fraction(1, 3), Fraction(2), B / 10, B / 4,
-                        Fraction(2, 3), None])
+        # greedy (always) and Phragmen (mostly) are exhaustive at the first try: switch the exhaustive stop off
+        # more often for them so that the infeasibility stop and the bound are exercised
+        case["stop"] = rng.random() < {"mes": 0.8, "phragmen": 0.5, "greedy": 0.3}[case["rule"]]
+        s = rng.choice([Fraction(1), Fraction(1, 2), Fraction(1, 2), Fraction(1, 3), Fraction(1, 4), Fraction(2),
+                        B / 10, B / 20, B / 4, Fraction(2, 3), None])
         case["step"] = None if s is None else pb.qs(s)
         se = s if s is not None else B / 100
         bm = rng.randrange(8)
@@ -148,8 +180,8 @@ def gen(rng, i, tier):
         case["pass_params"] = rng.random() < 0.85     # rule_params given (else None, Phragmen only)
     elif kind == "mesiter":
         case["sat"] = sat
-        s = rng.choice([Fraction(1), Fraction(1), Fraction(1, 2), Fraction(1, 3), Fraction(2), B / (10 * n),
-                        Fraction(1, 7), Fraction(3, 2)])
+        s = rng.choice([Fraction(1), Fraction(1, 2), Fraction(1, 3), Fraction(1, 4), Fraction(2), B / (10 * n),
+                        B / (4 * n), Fraction(1, 7), Fraction(1, 5), Fraction(3, 2)])
         case["step"] = pb.qs(s)
     else:
         seqs = [[], [["mes", "cost"]], [["mes", "cost"], ["greedy", "cost"]], [["mes", "card"], ["greedy", "card"]],
@@ -204,6 +236,19 @@ def _exh(costs, B, W, avail):
 
 
 def impl(case):
+    import signal
+
+    def _alarm(*_):
+        raise TimeoutError("the wrapper did not return within 25 s (the retry loop does not stop)")
+    signal.signal(signal.SIGALRM, _alarm)
+    signal.alarm(25)
+    try:
+        return _impl(case)
+    finally:
+        signal.alarm(0)
+
+
+def _impl(case):
     from pabutools.election import Instance
     from pabutools.rules import (BudgetAllocation, completion_by_rule_combination, exhaustion_by_budget_increase,
                                  method_of_equal_shares)
@@ -291,8 +336,10 @@ def impl(case):
         while True:
             if k >= CAP:
                 return {"skip": True, "nballots": nb}
-            bv = B / nb + k * inc
-            o = _norm(method_of_equal_shares(inst_with(bv * nb), prof, sat_class=sat, resoluteness=res,
+            # try k of the iterated rule: every voter holds (B - cost(init))/n + k*inc, which is what the plain
+            # rule hands out on an instance with budget limit B + k*n*inc
+            bv = (B - _cost(costs, case["init"])) / nb + k * inc
+            o = _norm(method_of_equal_shares(inst_with(B + k * nb * inc), prof, sat_class=sat, resoluteness=res,
                                              initial_budget_allocation=list(init)), res)
             table.append([pb.qs(bv), o])
             if reason is None:
